@@ -14,6 +14,9 @@
 //!   tagfeat <fonthex> <abstract> <t> <script index> <lang index|-> <feature tag>  -> notable | - | <feature index>
 //!   tagplan <fonthex> <abstract> <dir 0..3> <script|-> <lang|->
 //!         -> <shaper> <gsub: found,scriptidx,chosen,langidx,reqidx:reqtag> <gpos: ...>   (ot_map builder + plan)
+//!   tagresolve <fonthex> <abstract> <dir 0..3> <script|-> <lang|-> <tag,tag,..>
+//!         -> per tag `<gsub feature index|->/<gpos feature index|->` of the feature_map_t the plan compiled for it,
+//!            `x` when the compiled map has no entry for the tag        (ShapePlan::new + verif::plan::plan_info)
 //! An empty list is printed as `-`.
 use super::util::hex_bytes;
 use rustybuzz::verif as v;
@@ -32,6 +35,7 @@ pub const CMDS: &[&str] = &[
     "tagsel",
     "tagfeat",
     "tagplan",
+    "tagresolve",
 ];
 
 fn xs(t: &str) -> Option<Option<String>> {
@@ -219,6 +223,45 @@ pub fn handle(toks: &[&str], _st: &mut crate::State) -> Option<String> {
                 )
             };
             Some(format!("{} {} {}", name, f(0), f(1)))
+        }
+        "tagresolve" => {
+            let data = hex_bytes(toks.get(1)?)?;
+            let face = match Face::from_slice(&data, 0) {
+                Some(f) => f,
+                None => return Some("reject".into()),
+            };
+            let (_, d) = dir(toks.get(3)?)?;
+            let sc = opt_u32(toks.get(4)?)?
+                .map(|t| Script::from_iso15924_tag(rustybuzz::ttf_parser::Tag(t)));
+            let sc = match sc {
+                Some(None) => return Some("reject-script".into()),
+                Some(Some(s)) => Some(s),
+                None => None,
+            };
+            let l = xs(toks.get(5)?)?.and_then(|s| Language::from_str(&s).ok());
+            let tags = list(toks.get(6)?)?;
+            let plan = ShapePlan::new(&face, d, sc, l.as_ref(), &[]);
+            // `g=.. F <tag:i0:i1:..>* ; L0 ..` — the feature maps of the compiled plan
+            let info = v::plan::plan_info(&plan);
+            let feats: Vec<Vec<&str>> = info
+                .split(" ; ")
+                .next()?
+                .split(' ')
+                .skip(2)
+                .map(|f| f.split(':').collect())
+                .collect();
+            Some(
+                tags.iter()
+                    .map(|t| {
+                        let t = t.to_string();
+                        match feats.iter().find(|f| f[0] == t) {
+                            Some(f) => format!("{}/{}", f[1], f[2]),
+                            None => "x".into(),
+                        }
+                    })
+                    .collect::<Vec<_>>()
+                    .join(" "),
+            )
         }
         _ => None,
     }
